@@ -34,6 +34,7 @@ type c16Report struct {
 	Lengths        map[string]int `json:"lengths"`
 	ByClass        map[string]int `json:"by_class"`
 	PurityRepeats  int            `json:"purity_repeats"`
+	LongNames      int            `json:"long_names_sharing_prefixes"`
 	GenuineColl    int            `json:"genuine_collisions"`
 	Violations     []c16Witness   `json:"violations"`
 	Samples        []c16Witness   `json:"samples"`
@@ -184,8 +185,29 @@ func TestVerifC16(t *testing.T) {
 		rep.Salts++
 		byOut := map[string]string{} // out -> name
 		names := map[string]bool{}
+		// A family of long identifiers that differ only in their tail (generated code, test names):
+		// 24 siblings sharing a prefix of 40..400 bytes.
+		var family []string
+		{
+			base := c16RandIdent(r, si%3 == 0, false)
+			want := []int{40, 70, 90, 100, 120, 128, 160, 200, 256, 400}[si%10]
+			for len(base) < want {
+				base += "_" + c16RandIdent(r, false, false)
+			}
+			for k := 0; k < 24; k++ {
+				family = append(family, base+"_"+strconv.Itoa(k*7919))
+			}
+		}
 		for len(names) < perSalt {
 			var name string
+			if len(family) > 0 {
+				name, family = family[0], family[1:]
+				if names[name] {
+					continue
+				}
+				rep.LongNames++
+				goto have
+			}
 			switch r.Intn(10) {
 			case 0, 1, 2:
 				name = c16RandIdent(r, true, false)
@@ -201,6 +223,7 @@ func TestVerifC16(t *testing.T) {
 			if names[name] {
 				continue
 			}
+		have:
 			names[name] = true
 			class := "nonident"
 			if token.IsIdentifier(name) {
